@@ -77,7 +77,7 @@ func main() {
 	}
 	// go/packages runs the "go" found on PATH: make it the go1.26.8 the repo needs, offline.
 	os.Setenv("PATH", "/opt/veriftools/go1.26.8/bin:"+os.Getenv("PATH"))
-	for _, kv := range [][2]string{{"GOTOOLCHAIN", "local"}, {"GOFLAGS", "-mod=mod"}, {"GOPROXY", "off"}, {"GOSUMDB", "off"}} {
+	for _, kv := range [][2]string{{"GOTOOLCHAIN", "local"}, {"GOFLAGS", "-mod=mod"}, {"GOPROXY", "off"}, {"GOSUMDB", "off"}, {"CGO_ENABLED", "0"}} {
 		os.Setenv(kv[0], kv[1])
 	}
 	switch os.Args[1] {
